@@ -623,6 +623,146 @@ func (s *searcher) retention(n int) {
 	s.counts["retained-objects-rechecked"] = 3 * len(ks)
 }
 
+// messageLengths: completeness, every-position bit flips, extension and truncation of the MESSAGE over a
+// deterministic family of lengths (the node uses 32/64-byte messages; the property says "every message").
+func (s *searcher) messageLengths(reps int) {
+	lens := []int{0, 1, 31, 32, 33, 63, 64, 65, 66, 96, 127, 128, 129, 200, 1000}
+	for rep := 0; rep < reps; rep++ {
+		pk, sk := s.key()
+		for _, L := range lens {
+			m := s.r.Bytes(L)
+			pi, err := ed25519.ECVRFProve(sk, m)
+			s.evals++
+			if err != nil {
+				s.report("honest-prove-fails", fmt.Sprintf("ECVRFProve failed for a %d-byte message: %v", L, err), "ok <proof>", "prove "+hx.Hex(sk)+" "+hx.Hex(m))
+				continue
+			}
+			if r := s.verify(pk, pi, m); r != "true" {
+				s.report("honest-proof-rejected", fmt.Sprintf("honest proof for a %d-byte message does not verify: %s", L, r), "true", vline(pk, pi, m))
+			}
+			// single-bit flips at sampled byte positions, always including the first and the last byte
+			pos := map[int]bool{}
+			for _, q := range []int{0, 1, 30, 31, 32, 33, 62, 63, 64, 65, 66, 95, 96, 127, 128, 129, 199, 500, 999, L - 2, L - 1} {
+				if q >= 0 && q < L {
+					pos[q] = true
+				}
+			}
+			for k := 0; k < 6 && L > 0; k++ {
+				pos[s.r.Intn(L)] = true
+			}
+			for q := range pos {
+				mm := flip(m, 8*q+s.r.Intn(8))
+				if r := s.verify(pk, pi, mm); r == "true" {
+					s.report("bitflip-accepted-message", fmt.Sprintf("a %d-byte message with one bit flipped in byte %d still verifies under the proof of the original", L, q), "false", vline(pk, pi, m), vline(pk, pi, mm))
+				}
+				p2, _ := ed25519.ECVRFProve(sk, mm)
+				s.evals++
+				if bytes.Equal(p2, pi) {
+					s.report("different-messages-same-proof", fmt.Sprintf("two %d-byte messages differing in one bit of byte %d get the identical proof and lottery output", L, q), "different proofs", "prove "+hx.Hex(sk)+" "+hx.Hex(m), "prove "+hx.Hex(sk)+" "+hx.Hex(mm))
+				}
+			}
+			// extension and truncation
+			for _, x := range [][]byte{{0}, {0x80}, s.r.Bytes(32)} {
+				mx := append(append([]byte{}, m...), x...)
+				if r := s.verify(pk, pi, mx); r == "true" {
+					s.report("message-extension-accepted", fmt.Sprintf("the proof for a %d-byte message also verifies for the message extended by %d byte(s)", L, len(x)), "false", vline(pk, pi, m), vline(pk, pi, mx))
+				}
+				p2, _ := ed25519.ECVRFProve(sk, mx)
+				s.evals++
+				if bytes.Equal(p2, pi) {
+					s.report("different-messages-same-proof", fmt.Sprintf("a %d-byte message and its extension by %d byte(s) get the identical proof and lottery output", L, len(x)), "different proofs", "prove "+hx.Hex(sk)+" "+hx.Hex(m), "prove "+hx.Hex(sk)+" "+hx.Hex(mx))
+				}
+			}
+			if L > 0 {
+				if r := s.verify(pk, pi, m[:L-1]); r == "true" {
+					s.report("message-extension-accepted", fmt.Sprintf("the proof for a %d-byte message also verifies for the message with its last byte removed", L), "false", vline(pk, pi, m), vline(pk, pi, m[:L-1]))
+				}
+			}
+		}
+	}
+}
+
+// proveValueLengths: over-long and under-long header prove values through EVERY consumer (ECVRFVerify /
+// VRFVerify, VRFProof2Hash, validateProve, verifyBlockVRF, VRFProve2Value). Oracles:
+//
+//	(A) an accepted prove value built around an honest proof carries the honest lottery output;
+//	(B) the qualification rule reads the bytes the verifier verified: if pv is accepted, so are the first
+//	    ProveSize bytes of its left-padded form (computed here, independently), which is what the rule reads;
+//	(C) all consumers derive the same lottery value from one header value.
+func (s *searcher) proveValueLengths(n int) {
+	helper := &consensus.ConsensusHelperImpl{}
+	thr := threshold()
+	defer setThreshold(thr)
+	for i := 0; i < n; i++ {
+		pk, sk := s.key()
+		m := s.r.Bytes(32)
+		pi, err := ed25519.ECVRFProve(sk, m)
+		if err != nil {
+			continue
+		}
+		honestOut := new(big.Int).SetBytes(pi[:32])
+		// attacker-chosen material: a tiny lottery value (wins every lottery) that survives big.Int transport
+		small := func(k int) []byte {
+			b := s.r.Bytes(k)
+			b[0] = 1
+			for j := 1; j < k && j < 8; j++ {
+				b[j] = 0
+			}
+			return b
+		}
+		var pvs [][]byte
+		for _, extra := range []int{1, 5, 32, 80} { // lengths 81, 85, 112, 160
+			pvs = append(pvs, append(small(extra), pi...))                          // prefix ‖ proof
+			pvs = append(pvs, append(append([]byte{}, pi...), s.r.Bytes(extra)...)) // proof ‖ suffix
+			if extra >= 5 {
+				h := extra / 2
+				pvs = append(pvs, append(append(small(h), pi...), s.r.Bytes(extra-h)...)) // prefix ‖ proof ‖ suffix
+			}
+		}
+		pvs = append(pvs, pi, pi[1:], pi[:79]) // 80, and two 79-byte mutilations
+		for _, pv := range pvs {
+			hdr := new(big.Int).SetBytes(pv)
+			back := hdr.Bytes() // what every consumer of the header sees
+			acc := s.verify(pk, back, m) == "true"
+			read80 := refPad(back)[:80] // the bytes the qualification rule takes its value from (first 32 of these)
+			ruleVal := new(big.Int).SetBytes(read80[:32])
+			t := uint64(10)
+			qnLine := fmt.Sprintf("qn %d %s 10 0 %d", thr, hx.Hex(back), t)
+			if acc {
+				s.counts["prove-value-variants-accepted"]++
+				if ruleVal.Cmp(honestOut) != 0 {
+					_, qn := logical.VerifC16ValidateProve(back, 10, 0, t)
+					s.report("lottery-bytes-differ-from-verified-bytes",
+						fmt.Sprintf("a %d-byte header prove value built around a valid proof is accepted by ECVRFVerify, but the qualification rule reads the lottery value %s from it while the verified proof carries %s: the proposer chooses its own lottery value", len(back), ruleVal.String(), honestOut.String()),
+						"accepted prove values for one key and message carry one lottery output",
+						vline(pk, back, m), vline(pk, pi, m), qnLine, fmt.Sprintf("qn %d %s 10 0 %d", thr, hx.Hex(pi), t),
+						fmt.Sprintf("vbv %d %s %s %s 10 0 %d %d 0", thr, hx.Hex(pk), hx.Hex(back), hx.Hex(m), t, qn))
+				}
+				if r := s.verify(pk, read80, m); r != "true" {
+					s.report("lottery-bytes-differ-from-verified-bytes",
+						fmt.Sprintf("a %d-byte prove value is accepted, but the %d bytes the qualification rule reads (first ProveSize bytes after left-padding) are not an accepted proof: verifier and rule look at different bytes", len(back), len(read80)),
+						"true", vline(pk, back, m), vline(pk, read80, m), qnLine)
+				}
+			}
+			// (C) every consumer derives the same lottery value from this header value
+			v1 := hx.Guard(func() string { return helper.VRFProve2Value(hdr).String() })
+			v2 := hx.Guard(func() string {
+				r := logical.VerifC16CalcVrfValueRatio(logical.VerifC16TryZeroPadding(back))
+				return new(big.Int).Quo(new(big.Int).Mul(r.Num(), max256), r.Denom()).String()
+			})
+			v3 := hx.Guard(func() string {
+				return new(big.Int).SetBytes(vrf.VRFProof2Hash(vrf.VRFProve(ed25519.VerifC16TryZeroPadding(back)))).String()
+			})
+			s.evals += 4
+			if v1 != ruleVal.String() || v2 != ruleVal.String() || v3 != ruleVal.String() {
+				s.report("lottery-value-consumers-disagree",
+					fmt.Sprintf("for one %d-byte header prove value: VRFProve2Value = %s, validateProve's value = %s, VRFProof2Hash(ed25519 padding) = %s, reference (first 32 of the left-padded bytes) = %s", len(back), v1, v2, v3, ruleVal.String()),
+					ruleVal.String(), "p2v "+hx.Hex(back), qnLine, "pad "+hx.Hex(back))
+			}
+		}
+	}
+}
+
 // qnRange: whenever validateProve accepts, 1 <= qn <= MaxQN; and it is a function of its inputs.
 // refPad / refRatio: reference re-implementation of the padding and of the exact ratio/step of the qualification
 // rule from its written definition (math/big only), used to classify violations independently of the code.
@@ -784,6 +924,8 @@ func search(a map[string]string) {
 	} else {
 		// history first: a poisoned package-level value must not be able to hide behind later phases
 		s.history(12 * scale)
+		s.messageLengths(2 * scale)
+		s.proveValueLengths(6 * scale)
 		zeros := s.honest(12*scale, 60)
 		s.counts["honest-proofs-with-leading-zero-byte"] = zeros
 		s.syntheticTransport(200 * scale)
